@@ -1406,26 +1406,67 @@ mod oracle {
         std::thread::spawn(move || { let _ = tx.send(f()); });
         rx.recv_timeout(std::time::Duration::from_secs(secs)).ok()
     }
-    /// Progress mode terminates (and returns run's draws) when a chain's last transitions are slower than the
-    /// reporter's one-second period, with one and with several chains.
+    /// a deterministic chain whose transition number k takes `pause(k, total)`; state = [k, 1000 * id + k]
+    #[derive(Clone)]
+    struct Paced {
+        state: Vec<f64>,
+        id: f64,
+        pause: fn(u64, u64) -> u64,
+        total: u64,
+    }
+    impl mini_mcmc::core::MarkovChain<f64> for Paced {
+        fn step(&mut self) -> &Vec<f64> {
+            self.state[0] += 1.0;
+            self.state[1] = 1000.0 * self.id + self.state[0];
+            let ms = (self.pause)(self.state[0] as u64, self.total);
+            if ms > 0 {
+                std::thread::sleep(std::time::Duration::from_millis(ms));
+            }
+            &self.state
+        }
+        fn current_state(&self) -> &Vec<f64> {
+            &self.state
+        }
+    }
+    struct PacedSampler {
+        chains: Vec<Paced>,
+    }
+    impl mini_mcmc::core::HasChains<f64> for PacedSampler {
+        type Chain = Paced;
+        fn chains_mut(&mut self) -> &mut Vec<Paced> {
+            &mut self.chains
+        }
+    }
+    /// Progress mode terminates (and returns run's draws, in chain order) for speed profiles in which transitions are
+    /// slower than the reporter's one-second period: a slow last transition, one slow chain among many, all transitions slow.
     #[test]
     fn oracle_c10_progress_terminates_with_slow_last_transitions() {
-        // MH: 1 evaluation in `new` per chain, then one per transition
-        for (n_chains, at) in [(1usize, vec![5usize]), (1, vec![3, 4, 5]), (3, vec![17])] {
-            let total = 5usize; // n_discard 1 + n_collect 4
-            let at2 = at.clone();
-            let res = within(25, move || {
-                let init: Vec<Vec<f64>> = (0..n_chains).map(|c| vec![0.1 * c as f64]).collect();
-                let t = SlowAt { count: Default::default(), at: at2, millis: 1300 };
-                let mut s = MetropolisHastings::new(t, IsotropicGaussian::<f64>::new(0.5), init).seed(4);
-                s.run_progress(total - 1, 1).map(|(a, _)| a.dim()).map_err(|e| e.to_string())
-            });
+        use mini_mcmc::core::ChainRunner;
+        fn never(_k: u64, _t: u64) -> u64 { 0 }
+        fn slow_last(k: u64, t: u64) -> u64 { if k == t { 1300 } else { 0 } }
+        fn slow_last_two(k: u64, t: u64) -> u64 { if k + 1 >= t { 1100 } else { 0 } }
+        fn all_slow(_k: u64, _t: u64) -> u64 { 1050 }
+        let profiles: Vec<(&str, usize, usize, usize, Vec<fn(u64, u64) -> u64>)> = vec![
+            ("one chain, slow last transition", 1, 4, 1, vec![slow_last]),
+            ("seven chains, one with a slow last transition", 7, 4, 1, vec![never, never, slow_last, never, never, never, never]),
+            ("two chains, slow last two transitions", 2, 3, 1, vec![slow_last_two, never]),
+            ("one chain, every transition over a second", 1, 2, 1, vec![all_slow]),
+        ];
+        for (what, n_chains, n_collect, n_discard, pauses) in profiles {
+            let total = (n_collect + n_discard) as u64;
+            let mk = move || PacedSampler { chains: (0..n_chains).map(|c| Paced { state: vec![0.0, 1000.0 * c as f64], id: c as f64, pause: pauses[c], total }).collect() };
+            let mk2 = mk.clone();
+            let res = within(30, move || mk().run_progress(n_collect, n_discard).map(|(a, _)| a).map_err(|e| e.to_string()));
             match res {
-                None => witness(format!("{{\"oracle\":\"c10\",\"sampler\":\"mh\",\"chains\":{n_chains},\"slow_evaluations\":{at:?},\"what\":\"run_progress did not return within 25 s (transitions of 1.3 s near the end of a chain)\"}}")),
-                Some(Err(e)) => witness(format!("{{\"oracle\":\"c10\",\"sampler\":\"mh\",\"chains\":{n_chains},\"what\":\"run_progress failed: {e}\"}}")),
-                Some(Ok(d)) => {
-                    if d != (n_chains, total - 1, 1) {
-                        witness(format!("{{\"oracle\":\"c10\",\"sampler\":\"mh\",\"chains\":{n_chains},\"what\":\"shape {d:?}\"}}"));
+                None => witness(format!("{{\"oracle\":\"c10\",\"profile\":\"{what}\",\"what\":\"run_progress did not return within 30 s\"}}")),
+                Some(Err(e)) => witness(format!("{{\"oracle\":\"c10\",\"profile\":\"{what}\",\"what\":\"run_progress failed: {e}\"}}")),
+                Some(Ok(a)) => {
+                    // the same chains with the pauses removed give the same (deterministic) draws through run()
+                    let mut plain = mk2();
+                    for c in plain.chains.iter_mut() { c.pause = never; }
+                    let want = plain.run(n_collect, n_discard).unwrap();
+                    if a != want {
+                        witness(format!("{{\"oracle\":\"c10\",\"profile\":\"{what}\",\"what\":\"run_progress returned draws that differ from run (values or chain order)\"}}"));
                     }
                 }
             }
